@@ -118,7 +118,7 @@ PY_EXPRS = [
 
 FSTRINGS = [
     "f'a'", "f'{x}'", "f'{x!r}'", "f'{x:>10}'", "f'{x!s:^{w}}'", "f'{x=}'", "f'{x = }'", "f'a{{b}}c'", "f\"{x}\" \"b\" f\"{y}\"",
-    "f'{a!r:>{w}}'", "f'{a:=5}'", "f\"\\N{DIGIT ONE}\"", "f'''{x:\n}'''", "f'{f\"{y}\"}'", "rf'\\d{x}'", "Rf'{x}\\n'", "fr'{x}'",
+    "f'{a!r:>{w}}'", "f'{a:=5}'", "f\"\\N{DIGIT ONE}\"", "f'''{x:\n}'''", "f'{f\"{y}\"}'", "rf'\\d{x}'", "rf'\\{x}'", "rf'C:\\{d}\\{f}.txt'", "Rf'{x}\\n'", "fr'{x}'",
     "F'{x}'", "f'{x}' 'y'", "'y' f'{x}'", "f'{x}' f'{y}'", "f'{{}}'", "f'{x}{y}'", "f'{ x }'", "f'{x:{y}{z}}'", "f'{x!a}'",
     "f'{x:.2f}'", "f'{a[\"k\"]}'", "f'{a:{b:{c}}}'", "f'''a\nb{x}c\nd'''", "f'{x,}'", "f'{x, y}'", "f'{lambda: 1}'" if False else "f'{(lambda: 1)}'",
     "f'{x:%Y-%m}'", "f'\\{x}'" if False else "f'\\\\{x}'", "f'{x}\\n'", "f'é{x}ü'", "f'{\"é\"}'", "f'{x:é}'", "f''", "f'{x}' ''", "u'a' f'{x}'",
@@ -202,3 +202,41 @@ def xonsh_pairs():
     """(xonsh source, python translation) pairs vendored in spec/translations.json."""
     p = VERIF / "spec" / "translations.json"
     return [tuple(x) for x in json.loads(p.read_text())] if p.exists() else []
+
+
+def arg_order_variants():
+    """Call / class argument lists in EVERY source order of positional, *star, keyword and **mapping items up to four
+    items (ast.unparse always writes positionals first, so unparsed programs never contain e.g. `f(k=1, *rest)`).
+    Orders CPython rejects are filtered by the caller's oracle."""
+    import itertools
+
+    kinds = {"p": ["x", "y", "z", "w"], "s": ["*r1", "*r2", "*r3", "*r4"], "k": ["k1=1", "k2=2", "k3=3", "k4=4"], "d": ["**d1", "**d2", "**d3", "**d4"]}
+    out = []
+    for n in range(1, 5):
+        for seq in itertools.product("pskd", repeat=n):
+            args = ", ".join(kinds[k][i] for i, k in enumerate(seq))
+            out.append(f"f({args})\n")
+            out.append(f"class A({args}): pass\n")
+            if n <= 3:
+                out.append(f"@dec({args})\ndef g(): pass\n")
+    return out
+
+
+def string_prefix_variants():
+    """Every string prefix in every letter case x quotes, alone and in implicit concatenations."""
+    import itertools
+
+    pre = set()
+    for p in ["", "u", "r", "b", "br", "rb"]:
+        for cs in itertools.product(*[(c.lower(), c.upper()) for c in p]):
+            pre.add("".join(cs))
+    out = []
+    for p in sorted(pre):
+        for q in ["'", '"', "'''", '"""']:
+            out.append(f"x = {p}{q}abc{q}\n")
+        out.append(f"x = {p}'a' {p}\"b\"\n")
+        if "b" not in p.lower():
+            out.append(f"x = {p}'a' 'b'\n")
+            out.append(f"x = 'a' {p}'b'\n")
+            out.append(f"x = ({p}'a'\n     'b'\n     {p}'c')\n")
+    return out
